@@ -141,6 +141,30 @@ where
             let back = rlp::Rlp::new(&out).val_at::<Uint<N>>(0);
             format!("{} {}", bytes_tok(&out), res(back))
         }
+        // three values as the elements of ONE bounded list (`RlpStream::new_list(3)`): the item counter of the stream must
+        // advance once per element whatever the element is (seed C18-m8: a zero fast path counted the element twice, so a
+        // zero that is not the last element closed the list early); decoded back element by element
+        ("c18.rlp.list3", [v1, v2, v3]) => {
+            let vs = [arg!(uint::<N>(v1)), arg!(uint::<N>(v2)), arg!(uint::<N>(v3))];
+            let mut s = rlp::RlpStream::new_list(3);
+            for v in &vs {
+                s.append(v);
+            }
+            if !s.is_finished() {
+                return Some("list-not-finished".to_string());
+            }
+            let out = s.out();
+            let r = rlp::Rlp::new(&out);
+            let n_items = r.item_count().map(|c| c.to_string()).unwrap_or("err".into());
+            format!(
+                "{} {} {} {} {}",
+                bytes_tok(&out),
+                n_items,
+                res(r.val_at::<Uint<N>>(0)),
+                res(r.val_at::<Uint<N>>(1)),
+                res(r.val_at::<Uint<N>>(2))
+            )
+        }
         _ => return None,
     })
 }
